@@ -1141,6 +1141,20 @@ def m_slice_get(interp, args, info):
 def m_vec_index(interp, args, info):
     c, path, n = _elem_ptr(interp, args[0], 0)
     i = args[1]
+    if isinstance(i, Adt) and i.name.startswith("std::ops::Range"):
+        # shared sub-slice: a read-only view (a fresh list of the same element values)
+        f = i.fields
+        nm = i.name
+        lo, hi = {"std::ops::RangeTo": lambda: (0, f[0]), "std::ops::RangeFrom": lambda: (f[0], n),
+                  "std::ops::Range": lambda: (f[0], f[1]), "std::ops::RangeFull": lambda: (0, n),
+                  "std::ops::RangeToInclusive": lambda: (0, f[0] + 1 if isinstance(f[0], int) else f[0]),
+                  "std::ops::RangeInclusive": lambda: (f[0], f[1] + 1 if isinstance(f[1], int) else f[1])}.get(nm, lambda: (None, None))()
+        if not (isinstance(lo, int) and isinstance(hi, int)) or isinstance(lo, bool) or isinstance(hi, bool):
+            raise Inconclusive("slice index with %r" % (i,), interp.where())
+        if lo > hi or hi > n:
+            raise Panic("index", interp.where(), "range %d..%d out of %d" % (lo, hi, n))
+        v = interp.read(c, path)
+        return Ptr(Cell(ListV(tuple(v.items[lo:hi]))))
     if not isinstance(i, int):
         raise Inconclusive("index with %r" % (i,), interp.where())
     if not 0 <= i < n:
@@ -1710,3 +1724,38 @@ for _ty in ("usize", "u64", "u32", "u16", "u8"):
             "wrapping_sub", lambda a, b, _bits={"usize": 64, "u64": 64, "u32": 32, "u16": 16, "u8": 8}[_ty]: (a - b) % (1 << _bits))
         MODELS["%s::num::<impl %s>::min" % (_pfx, _ty)] = _int_method("min", min)
         MODELS["%s::num::<impl %s>::max" % (_pfx, _ty)] = _int_method("max", max)
+
+
+# --------------------------------------------------------------------------- std::cmp::Ordering helpers
+def _ord_arg(interp, v):
+    while isinstance(v, Ptr):
+        v = interp.load(v)
+    return ordering_to_int(v)
+
+
+@model("std::cmp::Ordering::then")
+def m_ordering_then(interp, args, info):
+    a = _ord_arg(interp, args[0])
+    return ordering(a) if a != 0 else ordering(_ord_arg(interp, args[1]))
+
+
+@model("std::cmp::Ordering::then_with")
+def m_ordering_then_with(interp, args, info):
+    a = _ord_arg(interp, args[0])
+    if a != 0:
+        return ordering(a)
+    return interp.call_value(args[1], []) if hasattr(interp, "call_value") else interp.call_closure(args[1], [])
+
+
+@model("std::cmp::Ordering::reverse")
+def m_ordering_reverse(interp, args, info):
+    return ordering(-_ord_arg(interp, args[0]))
+
+
+for _n, _f in (("is_lt", lambda x: x < 0), ("is_le", lambda x: x <= 0), ("is_gt", lambda x: x > 0),
+               ("is_ge", lambda x: x >= 0), ("is_eq", lambda x: x == 0), ("is_ne", lambda x: x != 0)):
+    def _mk(f):
+        def m(interp, args, info):
+            return f(_ord_arg(interp, args[0]))
+        return m
+    MODELS.setdefault("std::cmp::Ordering::" + _n, _mk(_f))
